@@ -17,6 +17,8 @@ Proj(calls) == [i \in 1..Len(calls) |-> [kind |-> calls[i].kind, gen |-> calls[i
 (* names of generators as logged -> generator ids of the specification *)
 GenId(n) == IF n = "a" THEN "a" ELSE IF n = "ab" THEN "ab" ELSE "acb"
 
+SameCalls(obs, want) == {obs[i] : i \in 1..Len(obs)} = {want[i] : i \in 1..Len(want)} /\ Len(obs) = Len(want)
+
 Holds(c, r) ==
     LET o == r.obs
         cs == r.case
@@ -25,13 +27,13 @@ Holds(c, r) ==
         df == Filter(o.calls, LAMBDA x : x.kind = "defer")
         want == ExpectedCalls(cs.gens, 1, cs.globals, cs.pkgtags)
     IN CASE c = "C06_NoFailure" -> ~o.failed /\ ~o.died /\ o.panic = ""
-         [] c = "C06_Calls" -> [i \in 1..Len(tc) |-> [kind |-> tc[i].kind, gen |-> GenId(tc[i].gen), type |-> tc[i].type]] = want
+         (* exactly once for every enabled declaration and for nothing else; the statement prescribes no order *)
+         [] c = "C06_Calls" -> SameCalls([i \in 1..Len(tc) |-> [kind |-> tc[i].kind, gen |-> GenId(tc[i].gen), type |-> tc[i].type]], want)
          (* the package generated next in the same run has the same declarations and no package-level tags: its decisions are
             those of the globals and the declarations alone, and nothing of d's reaches it *)
          [] c = "C06_CallsNextPackage" ->
-               /\ [i \in 1..Len(te) |-> [kind |-> te[i].kind, gen |-> GenId(te[i].gen), type |-> te[i].type]] = ExpectedCalls(cs.gens, 1, cs.globals, <<>>)
+               /\ SameCalls([i \in 1..Len(te) |-> [kind |-> te[i].kind, gen |-> GenId(te[i].gen), type |-> te[i].type]], ExpectedCalls(cs.gens, 1, cs.globals, <<>>))
                /\ \A i \in 1..Len(o.calls) : o.calls[i].pkg \in {"d", "e"}
-               /\ \A i \in 1..Len(o.calls) : \A j \in 1..Len(o.calls) : (o.calls[i].pkg = "d" /\ o.calls[j].pkg = "e") => i < j
          [] c = "C06_OnlyPackageLevel" -> \A i \in 1..Len(tc) : tc[i].obj_kind = (IF tc[i].kind = "alias" THEN "pkgscope-alias" ELSE "pkgscope-defined")
          (* every registered deferred callback ran exactly once: the harness registers one for each call whose planned
             behaviour is render_defer*, and a nested one from inside the callback of D01's *)
